@@ -551,6 +551,110 @@ theorem matchWs_accsEq {θ : Subst} {σc σ : State V} (hr : Rel θ σc σ) :
   | .point _ :: _, .interval _ _ :: _, h => by simp [matchWs, matchW] at h
   | .interval _ _ :: _, .point _ :: _, h => by simp [matchWs, matchW] at h
 
+/-- a window of a window: the callee narrows its formal `y[w]`, the block narrows `y` directly -/
+theorem matchWinWin_sound {θ : Subst} {σc σ : State V} (h : Rel θ σc σ) (hW : W) :
+    ∀ (w acc acc' : List WAcc) (dims : List (Int × Int)) (off o : Int) (ds : List (Int × Int)),
+      applyAcc σ w dims off = .ok (o, ds) → matchWinWin θ w acc acc' = true →
+      Sim W Eq (applyAcc σc acc ds o) (applyAcc σ acc' dims off)
+  | [], [], [], [], off, o, ds, ha, _ => by
+    simp only [applyAcc, pure, Except.pure] at ha
+    cases ha
+    exact Sim.of_eq rfl
+  | [], [], [], _ :: _, _, _, _, ha, _ => (applyAcc_nil_acc ha).elim
+  | [], [], _ :: _, _, _, _, _, _, hm => by simp [matchWinWin] at hm
+  | [], _ :: _, _, _, _, _, _, _, hm => by simp [matchWinWin] at hm
+  | _ :: _, _, _, [], _, _, _, ha, _ => (applyAcc_nil_dims ha).elim
+  | .point p :: ws, as, [], _ :: _, _, _, _, _, hm => by simp [matchWinWin] at hm
+  | .point p :: ws, as, .interval _ _ :: bs, _ :: _, _, _, _, _, hm => by simp [matchWinWin] at hm
+  | .point p :: ws, as, .point q :: bs, (ext, st) :: dims, off, o, ds, ha, hm => by
+    obtain ⟨i, he, h0, h1, hr⟩ := applyAcc_point ha
+    simp only [matchWinWin, Bool.and_eq_true] at hm
+    have hq : evalC σ q = .ok i := exEq_ok_left (eqC_sound σ p q hm.1) he
+    have ih := matchWinWin_sound h hW ws as bs dims _ o ds hr hm.2
+    simp only [applyAcc, hq, bind, Except.bind, h0, h1, and_self, if_true]
+    exact ih
+  | .interval lo hi :: ws, [], _, _ :: _, _, _, _, _, hm => by simp [matchWinWin] at hm
+  | .interval lo hi :: ws, _ :: _, [], _ :: _, _, _, _, _, hm => by simp [matchWinWin] at hm
+  | .interval lo hi :: ws, .point _ :: _, .interval _ _ :: _, _ :: _, _, _, _, _, hm => by
+    simp [matchWinWin] at hm
+  | .interval lo hi :: ws, .interval _ _ :: _, .point _ :: _, _ :: _, _, _, _, _, hm => by
+    simp [matchWinWin] at hm
+  | .interval lo hi :: ws, .point e :: as, .point q :: bs, (ext, st) :: dims, off, o, ds, ha, hm => by
+    obtain ⟨l, hh, r', hl, hhi, h0, h1, h2, hr, rfl⟩ := applyAcc_interval ha
+    simp only [matchWinWin, Bool.and_eq_true] at hm
+    obtain ⟨hm1, hm2⟩ := hm
+    split at hm1
+    · rename_i e' hs
+      have e1 := substC_sound h e e' hs
+      have e2 := eqC_sound σ _ _ hm1
+      have e3 : evalC σ (.binop .add lo e') = (evalC σc e >>= fun v => Except.ok (l + v)) := by
+        simp only [evalC, hl, e1, ctrlOp, bind, Except.bind, pure, Except.pure]
+      rw [e3] at e2
+      have s1 := (sim_of_exEq_map (fun v => l + v) e2).weaken (W' := W) False.elim
+      simp only [applyAcc]
+      refine s1.bind (fun v w hvw => ?_)
+      subst hvw
+      have hr' := applyAcc_shift σ (v * st) ws dims _ o r' hr
+      have ih := matchWinWin_sound h hW ws as bs dims _ _ r' hr' hm2
+      have e : off + (l + v) * st = off + l * st + v * st := by rw [Int.add_mul]; omega
+      rw [e]
+      by_cases hv : 0 ≤ v ∧ v < hh - l
+      · have hw : 0 ≤ l + v ∧ l + v < ext := by omega
+        simp only [hv, hw, and_self, if_true]
+        exact ih
+      · simp only [hv, if_false]
+        by_cases hw : 0 ≤ l + v ∧ l + v < ext
+        · simp only [hw, and_self, if_true]
+          constructor
+          · intro a ha'; cases ha'
+          · intro b hb; exact Or.inr ⟨hW, rfl⟩
+        · simp only [hw, if_false]
+          exact Sim.error _ _
+    · cases hm1
+  | .interval lo hi :: ws, .interval a b :: as, .interval a' b' :: bs, (ext, st) :: dims, off, o, ds,
+      ha, hm => by
+    obtain ⟨l, hh, r', hl, hhi, h0, h1, h2, hr, rfl⟩ := applyAcc_interval ha
+    simp only [matchWinWin, Bool.and_eq_true] at hm
+    obtain ⟨hm1, hm2⟩ := hm
+    split at hm1
+    · rename_i a2 b2 hsa hsb
+      simp only [Bool.and_eq_true] at hm1
+      have ea := substC_sound h a a2 hsa
+      have eb := substC_sound h b b2 hsb
+      have ea3 : evalC σ (.binop .add lo a2) = (evalC σc a >>= fun v => Except.ok (l + v)) := by
+        simp only [evalC, hl, ea, ctrlOp, bind, Except.bind, pure, Except.pure]
+      have eb3 : evalC σ (.binop .add lo b2) = (evalC σc b >>= fun v => Except.ok (l + v)) := by
+        simp only [evalC, hl, eb, ctrlOp, bind, Except.bind, pure, Except.pure]
+      have e2a := eqC_sound σ _ _ hm1.1
+      have e2b := eqC_sound σ _ _ hm1.2
+      rw [ea3] at e2a
+      rw [eb3] at e2b
+      have sa := (sim_of_exEq_map (fun v => l + v) e2a).weaken (W' := W) False.elim
+      have sb := (sim_of_exEq_map (fun v => l + v) e2b).weaken (W' := W) False.elim
+      simp only [applyAcc]
+      refine sa.bind (fun va wa hva => ?_)
+      subst hva
+      refine sb.bind (fun vb wb hvb => ?_)
+      subst hvb
+      have hr' := applyAcc_shift σ (va * st) ws dims _ o r' hr
+      have ih := matchWinWin_sound h hW ws as bs dims _ _ r' hr' hm2
+      have e : off + (l + va) * st = off + l * st + va * st := by rw [Int.add_mul]; omega
+      have e' : l + vb - (l + va) = vb - va := by omega
+      rw [e, e']
+      by_cases hv : 0 ≤ va ∧ va ≤ vb ∧ vb ≤ hh - l
+      · have hw : 0 ≤ l + va ∧ l + va ≤ l + vb ∧ l + vb ≤ ext := by omega
+        simp only [hv, hw, and_self, if_true]
+        exact ih.bind (fun x y hxy => by subst hxy; exact Sim.of_eq rfl)
+      · simp only [hv, if_false]
+        by_cases hw : 0 ≤ l + va ∧ l + va ≤ l + vb ∧ l + vb ≤ ext
+        · simp only [hw, and_self, if_true]
+          constructor
+          · intro x hx; cases hx
+          · intro y hy; exact Or.inr ⟨hW, rfl⟩
+        · simp only [hw, if_false]
+          exact Sim.error _ _
+    · cases hm1
+
 theorem matchV_sound {θ : Subst} {σc σ : State V} (h : Rel θ σc σ) (hW : hasWin θ = true → W)
     {e e' : Expr} (hm : matchV θ e e' = true) : Sim W Eq (evalView σc e) (evalView σ e') := by
   unfold matchV at hm
@@ -606,6 +710,15 @@ theorem matchV_sound {θ : Subst} {σc σ : State V} (h : Rel θ σc σ) (hW : h
       have h3 := viewOf_none h2
       simp only [evalView, h1, h3]
       refine (Sim.of_exEq (applyAcc_exEq σc σ acc acc' v.dims v.off (matchWs_accsEq h acc acc' hm2))).bind
+        (fun a b hab => ?_)
+      subst hab; exact Sim.of_eq rfl
+    · rename_i y w hl
+      simp only [Bool.and_eq_true, beq_iff_eq] at hm
+      obtain ⟨rfl, hm2⟩ := hm
+      obtain ⟨v, h1, h2⟩ := h.holds x _ hl
+      obtain ⟨vy, o, ds, h3, h4, rfl⟩ := viewOf_win h2
+      simp only [evalView, h1, h3]
+      refine (matchWinWin_sound h (hW (hasWin_lookup hl)) w acc acc' _ _ _ _ h4 hm2).bind
         (fun a b hab => ?_)
       subst hab; exact Sim.of_eq rfl
     · cases hm
